@@ -1,16 +1,127 @@
-"""AST probes of the multi-agent routing family (mTSP, MDCPDP): the comparisons that decide whether the
-depot may be revisited (mTSP: an agent is left) and whether a further pickup fits / the vehicle may return
-(MDCPDP).  The Lean models take the operators as parameters (`Rl4co/Env/Mtsp.lean`, `Rl4co/Env/Mdcpdp.lean`);
-the lemmas `Rl4co.Mtsp.agentLeft_eq`, `Rl4co.Mdcpdp.capFlag_eq`, `Rl4co.Mdcpdp.carryFlag_eq` state the
-operator the theorems need and stop compiling when it changes."""
+"""AST probes of the multi-agent routing family (mTSP, MDCPDP): the comparison operators and index expressions that
+decide the mask, the termination test and the length bookkeeping of the two `_step` functions, and the shape of the
+capacity tensor the MDCPDP generator emits.  The Lean models (`Rl4co/Env/Mtsp.lean`, `Rl4co/Env/Mdcpdp.lean`) take them
+as parameters; the lemmas named `…_eq` in `Rl4co/Proofs/Mtsp.lean` / `Rl4co/Proofs/Mdcpdp.lean` state the value the
+theorems need and stop compiling when the source changes it.  A statement that is not found (harmless rewrite) gives
+`pattern-miss` and the committed default."""
+import ast
 
 
 def register(ex):
     M = "rl4co/envs/routing/mtsp/env.py"
     D = "rl4co/envs/routing/mdcpdp/env.py"
+    G = "rl4co/envs/routing/mdcpdp/generator.py"
+
+    def func(rel, qual):
+        tree = ex.parse(rel)
+        return ex.find_function(tree, qual) if tree else None
+
+    def compares(node):
+        """single-operator comparisons below `node`, in source order"""
+        hits = [n for n in ast.walk(node) if isinstance(n, ast.Compare) and len(n.ops) == 1 and type(n.ops[0]) in ex.CMP]
+        return sorted(hits, key=lambda n: (n.lineno, n.col_offset))
+
+    def nth_cmp(rel, qual, left, right, nth, of):
+        """operator of the nth (source order) of exactly `of` comparisons `left <op> right` inside the function"""
+        L, R = left.replace(" ", ""), right.replace(" ", "")
+
+        def run():
+            fn = func(rel, qual)
+            if fn is None:
+                return None
+            hits = [c for c in compares(fn) if ex.norm(c.left) == L and ex.norm(c.comparators[0]) == R]
+            return "." + ex.CMP[type(hits[nth].ops[0])] if len(hits) == of else None
+        return run
+
+    def assign_cmp(rel, qual, target, nth, of):
+        """operator of the nth of exactly `of` comparisons in the value assigned to the name `target`"""
+        def run():
+            fn = func(rel, qual)
+            if fn is None:
+                return None
+            vals = [n.value for n in ast.walk(fn) if isinstance(n, ast.Assign) and len(n.targets) == 1
+                    and isinstance(n.targets[0], ast.Name) and n.targets[0].id == target]
+            if len(vals) != 1:
+                return None
+            hits = compares(vals[0])
+            return "." + ex.CMP[type(hits[nth].ops[0])] if len(hits) == of else None
+        return run
+
+    def open_block_cmp(nth):
+        """operator of the nth of the two comparisons inside `if self.problem_mode == "open":` of MDCPDPEnv._step"""
+        def run():
+            fn = func(D, "MDCPDPEnv._step")
+            if fn is None:
+                return None
+            blocks = [n for n in ast.walk(fn) if isinstance(n, ast.If) and "problem_mode" in ex.norm(n.test)]
+            if len(blocks) != 1:
+                return None
+            hits = [c for st in blocks[0].body for c in compares(st)]
+            return "." + ex.CMP[type(hits[nth].ops[0])] if len(hits) == 2 else None
+        return run
+
+    def pair_div():
+        """k in `new_to_deliver = (current_node + num_loc // k) % (num_loc + num_depot)`"""
+        fn = func(D, "MDCPDPEnv._step")
+        if fn is None:
+            return None
+        for n in ast.walk(fn):
+            if (isinstance(n, ast.Assign) and len(n.targets) == 1 and isinstance(n.targets[0], ast.Name)
+                    and n.targets[0].id == "new_to_deliver"):
+                v = n.value
+                if (isinstance(v, ast.BinOp) and isinstance(v.op, ast.Mod) and ex.norm(v.right) == "num_loc+num_depot"
+                        and isinstance(v.left, ast.BinOp) and isinstance(v.left.op, ast.Add)
+                        and ex.norm(v.left.left) == "current_node"):
+                    off = v.left.right
+                    if (isinstance(off, ast.BinOp) and isinstance(off.op, ast.FloorDiv) and ex.norm(off.left) == "num_loc"
+                            and isinstance(off.right, ast.Constant) and isinstance(off.right.value, int)):
+                        return str(off.right.value)
+        return None
+
+    def gen_cap_per_depot():
+        """last entry of `size=(*batch_size, X)` of the `torch.randint` that samples the capacity: `1` or `self.num_depot`"""
+        fn = func(G, "MDCPDPGenerator._generate")
+        if fn is None:
+            return None
+        for n in ast.walk(fn):
+            if (isinstance(n, ast.Assign) and len(n.targets) == 1 and isinstance(n.targets[0], ast.Name)
+                    and n.targets[0].id == "capacity" and isinstance(n.value, ast.Call)):
+                for kw in n.value.keywords:
+                    if kw.arg == "size" and isinstance(kw.value, ast.Tuple) and kw.value.elts:
+                        last = ex.norm(kw.value.elts[-1])
+                        if last == "1":
+                            return "false"
+                        if last == "self.num_depot":
+                            return "true"
+        return None
+
     ex.probe("mtspAgentCmp", "Cmp", ".lt", "mtsp/env.py:MTSPEnv._step  `td['agent_idx'] < td['num_agents'] - 1`",
              ex.cmp_probe(M, "MTSPEnv._step", "td['agent_idx']", "td['num_agents'] - 1"))
+    ex.probe("mtspAgentIncCmp", "Cmp", ".eq", "mtsp/env.py:MTSPEnv._step  `agent_idx + (current_node == 0).long()`",
+             nth_cmp(M, "MTSPEnv._step", "current_node", "0", 0, 2))
+    ex.probe("mtspDepotNeCmp", "Cmp", ".ne", "mtsp/env.py:MTSPEnv._step  `logical_and(current_node != 0, …)`",
+             nth_cmp(M, "MTSPEnv._step", "current_node", "0", 1, 2))
+    ex.probe("mtspDoneCmp", "Cmp", ".eq", "mtsp/env.py:MTSPEnv._step  `torch.count_nonzero(available[..., 1:], dim=-1) == 0`",
+             ex.cmp_probe(M, "MTSPEnv._step", "torch.count_nonzero(available[..., 1:], dim=-1)", "0"))
+    ex.probe("mtspResetCmp", "Cmp", ".eq", "mtsp/env.py:MTSPEnv._step  `current_length *= (cur_agent_idx == td['agent_idx'])`",
+             ex.cmp_probe(M, "MTSPEnv._step", "cur_agent_idx", "td['agent_idx']"))
     ex.probe("mdcpdpCapCmp", "Cmp", ".ge", "mdcpdp/env.py:MDCPDPEnv._step  `current_carry >= current_capacity`",
              ex.cmp_probe(D, "MDCPDPEnv._step", "current_carry", "current_capacity"))
     ex.probe("mdcpdpCarryCmp", "Cmp", ".gt", "mdcpdp/env.py:MDCPDPEnv._step  `current_carry > 0`",
              ex.cmp_probe(D, "MDCPDPEnv._step", "current_carry", "0"))
+    ex.probe("mdcpdpBackDepotCmp", "Cmp", ".lt", "mdcpdp/env.py:MDCPDPEnv._step  `back_flag = (current_node < num_depot) & …`",
+             assign_cmp(D, "MDCPDPEnv._step", "back_flag", 0, 2))
+    ex.probe("mdcpdpBackAvailCmp", "Cmp", ".eq", "mdcpdp/env.py:MDCPDPEnv._step  `back_flag = … & (available.gather(-1, current_node) == 0)`",
+             assign_cmp(D, "MDCPDPEnv._step", "back_flag", 1, 2))
+    ex.probe("mdcpdpLastDepotCmp", "Cmp", ".eq", "mdcpdp/env.py:MDCPDPEnv._step  `last_depot_flag = sum(available[..., :num_depot]) == 0`",
+             assign_cmp(D, "MDCPDPEnv._step", "last_depot_flag", 0, 1))
+    ex.probe("mdcpdpDoneCmp", "Cmp", ".eq", "mdcpdp/env.py:MDCPDPEnv._step  `done = torch.count_nonzero(available, dim=-1) == 0`",
+             assign_cmp(D, "MDCPDPEnv._step", "done", 0, 1))
+    ex.probe("mdcpdpOpenToCmp", "Cmp", ".lt", "mdcpdp/env.py:MDCPDPEnv._step  open mode: `(current_node < num_depot) & …` is not charged",
+             open_block_cmp(0))
+    ex.probe("mdcpdpOpenFromCmp", "Cmp", ".ge", "mdcpdp/env.py:MDCPDPEnv._step  open mode: `… & (td['current_node'] >= num_depot)`",
+             open_block_cmp(1))
+    ex.probe("mdcpdpPairDiv", "Nat", "2", "mdcpdp/env.py:MDCPDPEnv._step  `new_to_deliver = (current_node + num_loc // 2) % (num_loc + num_depot)`",
+             pair_div)
+    ex.probe("mdcpdpGenCapPerDepot", "Bool", "false", "mdcpdp/generator.py:_generate  capacity `size=(*batch_size, 1)` (true: `self.num_depot`)",
+             gen_cap_per_depot)
